@@ -88,9 +88,12 @@ void do_schedule(Ctx &c, TaskM &t, bool now_kind, int cls) {
     }
     t.time = when;
     t.far = (!now_kind && (cls == 7 || cls == 8));
+    uint64_t inst = t.instances;
     if (now_kind) aws_thread_scheduler_schedule_now(c.ts, &t.task);
     else aws_thread_scheduler_schedule_future(c.ts, &t.task, when);
-    t.sched_returned = true;
+    // The task may already have run - and the object been scheduled again by someone else - before this call returns (the caller
+    // can be preempted after the hand-over): only the instance this call created may be marked.
+    if (t.instances == inst) t.sched_returned = true;
     c.ops_done++;
 }
 
